@@ -165,7 +165,11 @@ func (e Engine) Generate(r *core.Rand, tier core.Tier) *core.Scenario {
 	var extras []*BaseExtra
 	if wl == nil {
 		for _, x := range baseExtras {
-			if r.Chance(1, 3) {
+			num := 1
+			if e.Prop == "C08" {
+				num = 2 // failed transactions of every method are this property's subject
+			}
+			if r.Chance(num, 3) {
 				if x.Tune != nil {
 					x.Tune(r, &k)
 				}
